@@ -61,6 +61,11 @@ def _cells():
     cells.append(np.array([[4.0, 0, 0], [0, 2.0, 0], [0, 0, 8.0]]))             # power of two
     cells.append(np.eye(3))                                                      # default unit box
     cells.append(chol_from_params(3.7, 4.1, 5.9, 81, 97, 112) @ rot([1, 2, 3], 37.0).T)  # rotated, not LAMMPS
+    # exactly one right angle (each of alpha, beta, gamma in turn) with the other two oblique: shortcuts for 90 degrees
+    # must not assume the other angles are right too
+    cells.append(chol_from_params(3.0, 4.0, 5.0, 90, 100, 70))
+    cells.append(chol_from_params(3.0, 4.0, 5.0, 100, 90, 70))
+    cells.append(chol_from_params(3.0, 4.0, 5.0, 100, 70, 90))
     # near-duplicates: a cell 1e-6 (relative) away from another menu cell / from the default unit box must be a different
     # state (re-defining a live Box with a minutely strained cell, the stated rounding bound being 1e-8)
     cells.append(chol_from_params(3.3, 3.3, 3.3, 90, 90, 90) * np.array([[1 + 2e-6], [1 - 3e-6], [1 + 1e-6]]))
@@ -168,8 +173,16 @@ def build(hist):
             box.set(origin=ORIGINS[op['origin']])
             mo = ORIGINS[op['origin']].copy()
         elif k == 'observe':
+            # read every derived quantity once, so that whatever the implementation caches is populated mid-history
             box.reciprocal_vects
             box.volume
+            box.planes
+            box.inside(np.array([0.1, 0.2, 0.3]))
+            box.outside(np.array([[0.1, 0.2, 0.3]]))
+            box.position_cartesian_to_relative(np.array([0.1, 0.2, 0.3]))
+            (box.a, box.b, box.c, box.alpha, box.beta, box.gamma)
+            if box.is_lammps_norm():
+                (box.lx, box.ly, box.lz, box.xy, box.xz, box.yz, box.xlo, box.xhi, box.ylo, box.yhi, box.zlo, box.zhi)
             cache = True
         elif k == 'set_default':
             box.set()
@@ -182,7 +195,14 @@ def canon(st):
     # model state: vectors rounded to 1e-6 relative, origin, cache flag
     s = np.abs(st.mv).max()
     return (tuple(np.round(st.mv.ravel() / s * 1e6).astype(np.int64).tolist()), float(s),
-            tuple(st.mo.tolist()), bool(st.cache))
+            tuple(st.mo.tolist()), bool(st.cache), _hidden_state(st.box))
+
+
+def _hidden_state(box):
+    """names of the instance attributes that currently hold something (not their values, which the model state
+    already determines up to rounding): an implementation that grows a cache gets an additional attribute, hence
+    additional states, all of which are explored."""
+    return tuple(sorted(k for k, v in vars(box).items() if v is not None))
 
 
 REL27 = np.array(list(itertools.product([-1.0, 0.37, 2.0], repeat=3)))
